@@ -273,7 +273,7 @@ rate limiter — and EVERY sequence of operations, the model never takes that br
 history, so the ghost fate `dropped` of that branch never occurs either and conservation speaks about real fates
 while the factory runs. Proof: whatever `choose_target_worker` names for the head of the queue, the second
 consultation inside `route_message` (with that pick as the hint) finds a worker of the pool, for each router
-(`Factory.second_choice`); for round-robin this needs the F9 fix. -/
+(`Factory.second_choice`); for round-robin this needs the F10 fix. -/
 theorem never_panics (c : CaseCfg) (steps : List Step) : Ev.panicked ∉ ((init c).runSteps steps).env.log :=
   never_panics_run c steps
 
